@@ -1,10 +1,10 @@
 package main
 
-func (m *Machine) civilAdd(t TimeV, d *Term) Value              { panic(unsupported("civil Add")) }
-func (m *Machine) civilSub(t, u TimeV) Value                    { panic(unsupported("civil Sub")) }
-func (m *Machine) civilCmp(kind string, t, u TimeV) Value       { panic(unsupported("civil cmp")) }
-func (m *Machine) civilIn(t TimeV, loc Value) Value             { panic(unsupported("civil In")) }
-func (m *Machine) civilField(t TimeV, n string) Value           { panic(unsupported("civil field")) }
-func (m *Machine) civilTruncate(t TimeV, d *Term) Value         { panic(unsupported("civil Truncate")) }
-func (m *Machine) civilAddDate(t TimeV, y, mo, d *Term) Value   { panic(unsupported("civil AddDate")) }
-func (m *Machine) civilDate(a []Value) Value                    { panic(unsupported("time.Date")) }
+func (m *Machine) civilAdd(t TimeV, d *Term) Value            { panic(unsupported("civil Add")) }
+func (m *Machine) civilSub(t, u TimeV) Value                  { panic(unsupported("civil Sub")) }
+func (m *Machine) civilCmp(kind string, t, u TimeV) Value     { panic(unsupported("civil cmp")) }
+func (m *Machine) civilIn(t TimeV, loc Value) Value           { panic(unsupported("civil In")) }
+func (m *Machine) civilField(t TimeV, n string) Value         { panic(unsupported("civil field")) }
+func (m *Machine) civilTruncate(t TimeV, d *Term) Value       { panic(unsupported("civil Truncate")) }
+func (m *Machine) civilAddDate(t TimeV, y, mo, d *Term) Value { panic(unsupported("civil AddDate")) }
+func (m *Machine) civilDate(a []Value) Value                  { panic(unsupported("time.Date")) }
